@@ -92,3 +92,261 @@ def regenerate():
     if write_if_changed(os.path.join(COQDIR, "gen", "Params.v"), render_params(d)):
         changed.append("gen/Params.v")
     return changed, d
+
+# ============================================================================ guard table (C20)
+def strip_rust_comments(s):
+    out, i, n = [], 0, len(s)
+    while i < n:
+        if s.startswith("//", i):
+            j = s.find("\n", i); j = n if j < 0 else j
+            i = j
+        elif s.startswith("/*", i):
+            j = s.find("*/", i + 2); j = n - 2 if j < 0 else j
+            out.append(" " * 0); i = j + 2
+        elif s[i] == '"':
+            j = i + 1
+            while j < n and s[j] != '"':
+                j += 2 if s[j] == "\\" else 1
+            out.append('""'); i = j + 1
+        else:
+            out.append(s[i]); i += 1
+    return "".join(out)
+
+def fn_body(src, anchor, after=None, what=""):
+    start = 0
+    if after:
+        m = re.search(after, src)
+        if not m: raise TieBroken("translator: cannot find %r (%s)" % (after, what))
+        start = m.end()
+    m = re.compile(anchor).search(src, start)
+    if not m: raise TieBroken("translator: cannot find function %r (%s)" % (anchor, what))
+    i = src.find("{", m.end())
+    depth, j = 0, i
+    while j < len(src):
+        if src[j] == "{": depth += 1
+        elif src[j] == "}":
+            depth -= 1
+            if depth == 0: return src[i + 1:j]
+        j += 1
+    raise TieBroken("translator: unbalanced braces in %s" % what)
+
+class Block:
+    def __init__(self, header, parent):
+        self.header, self.parent, self.children, self.items = header, parent, [], []   # items: ('text', s) | ('block', Block)
+        self.text = ""
+
+def parse_blocks(body):
+    root = Block("", None); cur = root; last = 0
+    i = 0
+    while i < len(body):
+        ch = body[i]
+        if ch == "{":
+            header = body[last:i].strip()
+            # a struct literal / closure body also opens a brace; headers keep whatever precedes since the last boundary
+            b = Block(header, cur); cur.items.append(("block", b)); cur.children.append(b); cur = b; last = i + 1
+        elif ch == "}":
+            seg = body[last:i].strip()
+            if seg: cur.items.append(("text", seg))
+            cur = cur.parent if cur.parent is not None else cur; last = i + 1
+        elif ch == ";":
+            seg = body[last:i].strip()
+            if seg: cur.items.append(("text", seg))
+            last = i + 1
+        i += 1
+    seg = body[last:].strip()
+    if seg: cur.items.append(("text", seg))
+    return root
+
+# ---- tiny Rust condition parser
+_TOK = re.compile(r"\s*(\|\||&&|==|!=|<=|>=|<|>|\+|-|\*|!|\(|\)|\bas\b\s+[A-Za-z0-9_]+|[0-9][0-9_]*(?:\.[0-9]+)?(?:usize|isize|i32|u32|f64)?|[A-Za-z_][A-Za-z0-9_]*(?:::<[^>]*>)?(?:(?:::|\.)[A-Za-z_][A-Za-z0-9_]*|\((?:[^()]*)\)|\[(?:[^\[\]]*)\])*)")
+def tokenize(s):
+    toks, i = [], 0
+    s = s.strip()
+    while i < len(s):
+        m = _TOK.match(s, i)
+        if not m or m.end() == i: raise ValueError("cannot tokenize %r at %d" % (s, i))
+        toks.append(m.group(1).strip()); i = m.end()
+    return toks
+
+class P:
+    def __init__(self, toks): self.t, self.i = toks, 0
+    def peek(self): return self.t[self.i] if self.i < len(self.t) else None
+    def eat(self, x=None):
+        tok = self.peek()
+        if x is not None and tok != x: raise ValueError("expected %r got %r" % (x, tok))
+        self.i += 1; return tok
+    def expr(self): return self.or_()
+    def or_(self):
+        l = self.and_()
+        while self.peek() == "||": self.eat(); l = ("or", l, self.and_())
+        return l
+    def and_(self):
+        l = self.cmp()
+        while self.peek() == "&&": self.eat(); l = ("and", l, self.cmp())
+        return l
+    def cmp(self):
+        l = self.add()
+        if self.peek() in ("==", "!=", "<=", ">=", "<", ">"):
+            op = self.eat(); return (op, l, self.add())
+        return l
+    def add(self):
+        l = self.mul()
+        while self.peek() in ("+", "-"):
+            op = self.eat(); l = (op, l, self.mul())
+        return l
+    def mul(self):
+        l = self.unary()
+        while self.peek() == "*":
+            self.eat(); l = ("*", l, self.unary())
+        return l
+    def unary(self):
+        if self.peek() == "-": self.eat(); return ("neg", self.unary())
+        if self.peek() == "!": self.eat(); return ("not", self.unary())
+        e = self.atom()
+        while self.peek() is not None and self.peek().startswith("as "): self.eat()      # casts are transparent over Z
+        return e
+    def atom(self):
+        tok = self.eat()
+        if tok == "(":
+            e = self.expr(); self.eat(")"); return e
+        if tok is None: raise ValueError("unexpected end")
+        if tok[0].isdigit(): return ("num", tok)
+        return ("atom", re.sub(r"\s+", "", tok))
+
+def parse_cond(s):
+    p = P(tokenize(s)); e = p.expr()
+    if p.peek() is not None: raise ValueError("trailing tokens in %r" % s)
+    return e
+
+def atoms_of(e):
+    if e[0] == "atom": return {e[1]}
+    if e[0] == "num": return set()
+    out = set()
+    for x in e[1:]: out |= atoms_of(x)
+    return out
+
+def gallina(e, amap):
+    k = e[0]
+    if k == "atom": return amap[e[1]]
+    if k == "num":
+        t = re.sub(r"(usize|isize|i32|u32|_)", "", e[1])
+        if "." in t: raise ValueError("float literal in structural guard")
+        return t
+    if k == "neg": return "(- %s)" % gallina(e[1], amap)
+    if k == "not": return "(negb %s)" % gallina(e[1], amap)
+    a, b = gallina(e[1], amap), gallina(e[2], amap)
+    return {"or": "(%s || %s)", "and": "(%s && %s)", "==": "(%s =? %s)", "!=": "(negb (%s =? %s))", "<": "(%s <? %s)", "<=": "(%s <=? %s)",
+            ">": "(%s >? %s)", ">=": "(%s >=? %s)", "+": "(%s + %s)", "-": "(%s - %s)", "*": "(%s * %s)"}[k] % (a, b)
+
+def _if_cond(header):
+    m = re.match(r"^(?:else\s+)?if\s+(.*)$", header, re.S)
+    return m.group(1).strip() if m else None
+
+def guards_of_entry(ent, srccache):
+    """list of Gallina boolean terms (the structural guards of the function, in source order)"""
+    if ent["file"] not in srccache:
+        srccache[ent["file"]] = strip_rust_comments(_src(ent["file"]))
+    body = fn_body(srccache[ent["file"]], ent["anchor"], ent.get("after"), ent["key"])
+    root = parse_blocks(body)
+    amap = {re.sub(r"\s+", "", k): v for k, v in ent["atoms"].items()}
+    out, ignored = [], []
+    def classify(cond_txt, build):
+        try:
+            e = parse_cond(cond_txt)
+        except ValueError as ex:
+            if any(re.search(p, cond_txt) for p in ent["data"]): ignored.append(cond_txt); return
+            raise TieBroken("translator: %s: cannot parse guard condition %r (%s)" % (ent["key"], cond_txt, ex))
+        missing = [a for a in atoms_of(e) if a not in amap]
+        if missing:
+            if any(re.search(p, cond_txt) for p in ent["data"]): ignored.append(cond_txt); return
+            raise TieBroken("translator: %s: guard %r mentions unknown atoms %s" % (ent["key"], cond_txt, missing))
+        try:
+            out.append(build(e))
+        except ValueError as ex:
+            raise TieBroken("translator: %s: guard %r: %s" % (ent["key"], cond_txt, ex))
+    def walk(b):
+        returned = []          # conditions of `if C { return … }` seen at this level since the last guard
+        for idx, (kind, it) in enumerate(b.items):
+            if kind == "text":
+                if re.match(r"^panic!\s*\(", it):
+                    # bare panic at this level
+                    if b.header.strip() == "else" and b.parent is not None:
+                        # chain-else-panic: negate the conditions of the preceding if / else-if siblings
+                        sibs = [x for k, x in b.parent.items if k == "block"]
+                        pos = sibs.index(b); chain = []
+                        j = pos - 1
+                        while j >= 0:
+                            c = _if_cond(sibs[j].header)
+                            if c is None: break
+                            chain.append(c)
+                            if not sibs[j].header.startswith("else"): break
+                            j -= 1
+                        if not chain: raise TieBroken("translator: %s: else-panic without an if chain" % ent["key"])
+                        conds = list(reversed(chain))
+                        def build(_e, conds=conds):
+                            return "(" + " && ".join("(negb %s)" % gallina(parse_cond(c), amap) for c in conds) + ")"
+                        for c in conds:
+                            miss = [a for a in atoms_of(parse_cond(c)) if a not in amap]
+                            if miss: raise TieBroken("translator: %s: else-panic chain condition %r mentions unknown atoms %s" % (ent["key"], c, miss))
+                        out.append(build(None))
+                    elif _if_cond(b.header) is not None:
+                        pass        # handled when visiting the block from its parent (below)
+                    elif b is root:
+                        if not returned: raise TieBroken("translator: %s: unconditional panic" % ent["key"])
+                        rs = list(returned)
+                        out.append("(" + " && ".join("(negb %s)" % gallina(parse_cond(c), amap) for c in rs) + ")")
+                    else:
+                        raise TieBroken("translator: %s: panic in an unrecognised position (block header %r)" % (ent["key"], b.header[:60]))
+                continue
+            blk = it
+            c = _if_cond(blk.header)
+            first = blk.items[0] if blk.items else None
+            if c is not None and first and first[0] == "text" and re.match(r"^panic!\s*\(", first[1]) and not blk.header.startswith("else"):
+                classify(c, lambda e: gallina(e, amap))
+                returned = []
+            elif c is not None and first and first[0] == "text" and first[1].startswith("return") and b is root and not blk.header.startswith("else"):
+                miss = [a for a in atoms_of(parse_cond(c)) if a not in amap] if not any(re.search(p, c) for p in ent["data"]) else ["data"]
+                if not miss: returned.append(c)
+                walk(blk)
+            else:
+                walk(blk)
+    walk(root)
+    return out, ignored
+
+def render_guard_table():
+    import guardtable
+    cache = {}
+    L = ["(* gen/GuardTable.v -- the explicit `if … { panic!(…) }` guards of every checked entry point of C20,",
+         "   REGENERATED from /repo/src by driver/translate.py on every check run (integers over Z). *)",
+         "From Coq Require Import ZArith Bool.", "Local Open Scope Z_scope.", "Local Open Scope bool_scope.", ""]
+    summary = {}
+    bodies = {}
+    for ent in guardtable.ENTRIES:
+        if ent["native"]: continue
+        vs = " ".join(n for n, _, _ in ent["vars"])
+        if ent["guard_of"]:
+            src = guardtable.BYKEY[ent["guard_of"]]
+            if ent["file"] not in cache: cache[ent["file"]] = strip_rust_comments(_src(ent["file"]))
+            body = fn_body(cache[ent["file"]], ent["anchor"], ent.get("after"), ent["key"])
+            callee = re.search(r"fn\s+([a-z_0-9]+)", src["anchor"].replace("\\", "")).group(1)
+            if callee not in body:
+                raise TieBroken("translator: %s no longer calls %s (whose guard protects it)" % (ent["key"], callee))
+            gs, ign = guards_of_entry(src, cache)
+            own, _ = guards_of_entry(ent, cache)
+            gs = own + gs
+        else:
+            gs, ign = guards_of_entry(ent, cache)
+        term = " || ".join(gs) if gs else "false"
+        L.append("Definition g_%s (%s : Z) : bool := %s." % (ent["key"], vs, term))
+        summary[ent["key"]] = len(gs)
+    L.append("")
+    return "\n".join(L), summary
+
+_regen_params = regenerate
+def regenerate():
+    changed, d = _regen_params()
+    text, summary = render_guard_table()
+    if write_if_changed(os.path.join(COQDIR, "gen", "GuardTable.v"), text):
+        changed.append("gen/GuardTable.v")
+    d["guards"] = summary
+    return changed, d
